@@ -15,7 +15,7 @@ from ..flow import Flow, emptiness_test_kind
 from ..alg import Sym, Unsupported, _binop
 
 GEO = "typhon/geographical.py"
-EXPECT = {"C06.units": 8, "C06.scale": 4, "C06.deshuffle": 2, "C06.pairs": 2, "C06.empty": 1, "C06.metric": 2, "C06.complete": 3, "C06.pure": 3}
+EXPECT = {"C06.units": 8, "C06.scale": 4, "C06.deshuffle": 2, "C06.pairs": 3, "C06.empty": 1, "C06.metric": 2, "C06.complete": 3, "C06.pure": 3}
 
 SI_KM = {  # unit -> (kilometres per unit, accepted spellings)
     "cm": (1e-5, {"cm", "centimeter", "centimeters", "centimetre", "centimetres"}),
@@ -275,6 +275,16 @@ def rule_deshuffle(ctx):
             # the tree is built from the permuted points
             trees = [c for c in calls_in(fi.node) if c.args and norm(c.args[0]) == st.targets[0].id and "tree" in norm(c.func).lower()]
             okb = bool(trees)
+            # ... and the points are permuted whenever a permutation is stored (query() translates through it unconditionally)
+            from ..flow import guard_chain
+            stores_ = [a_ for a_ in flow.stmts if isinstance(a_, ast.Assign) and norm(a_.targets[0]) == "self.%s" % attr_
+                       and not (isinstance(a_.value, ast.Constant) and a_.value.value is None)]
+            g_perm = sorted(("" if p_ else "not ") + str(norm(t_)) for t_, p_ in guard_chain(st, implicit=True))
+            for a_ in stores_:
+                g_st = sorted(("" if p_ else "not ") + str(norm(t_)) for t_, p_ in guard_chain(a_, implicit=True))
+                if g_st != g_perm:
+                    okb = False
+                    fact = "%s under %s, but self.%s is set under %s" % (norm(st), g_perm or "no condition", attr_, g_st or "no condition")
     ctx.ob("GeoIndex.__init__.shuffle", okb, fact, "points = points[self.<sigma>] and the tree is built from the permuted points",
            node=fi.node, func=fi)
     if perm_attr is None:
@@ -398,6 +408,21 @@ def rule_pairs(ctx):
                     if jag is not None and names == [jag, norm(it)]:
                         src = flow.resolve(st.value, at=st)
                         okd = bool(calls_in(src, "query_radius")) or "query_radius" in norm(src)
+    # pairs and distances keep the order in which they were flattened: nothing re-binds / re-orders one of them alone
+    pn = None
+    for st in flow.stmts:
+        if isinstance(st, ast.Assign) and isinstance(st.targets[0], ast.Name) and comp is not None and any(x is comp for x in ast.walk(st.value)):
+            pn = st.targets[0].id
+    if pn is not None:
+        rebinds = [st for st in flow.stmts if isinstance(st, (ast.Assign, ast.AugAssign)) and
+                   any(isinstance(t_, ast.Name) and t_.id == pn for t_ in (st.targets if isinstance(st, ast.Assign) else [st.target]))
+                   and not any(x is comp for x in ast.walk(st.value))]
+        reorder = [norm(st)[:80] for st in rebinds if any(isinstance(n_, ast.Call) and (dotted(n_.func) or "").split(".")[-1] in
+                                                          ("lexsort", "argsort", "sort", "unique", "flip", "roll", "permutation", "shuffle")
+                                                          for n_ in ast.walk(st.value)) or isinstance(st.value, ast.Subscript)]
+        inplace = [norm(c_)[:60] for c_ in calls_in(f.node) if isinstance(c_.func, ast.Attribute) and c_.func.attr == "sort" and norm(c_.func.value) == pn]
+        ctx.ob("GeoIndex.query.order", not reorder and not inplace, "re-orderings of the pair columns: %s" % ((reorder + inplace) or "none"),
+               "pair k and distance k describe the same pair: the pair array is not sorted / permuted after it was flattened", node=f.node, func=f)
     ctx.ob("GeoIndex.query.distances", okd, factd, "np.hstack over the jagged distances of the same query_radius result, in query order, "
            "unpacked as (indices, distances)", node=f.node, func=f)
 
